@@ -154,8 +154,8 @@ def gen_case(r, n=None, dims=(1, 1, 2, 2, 3, 4, 5), exact_only=False, spec=None,
         case["fresh_holder"] = True     # the objective returns a NEW value holder instead of filling in the one it was given
     if r.random() < 0.04:
         case["discrete"] = r.choice((1, 2))   # the problem declares discrete parameters (ignored by this solver version)
-    if r.random() < 0.06:
-        case["ev_probe"] = r.choice(("inverse", "both", "stored", "rebound", "walk"))    # the solver's evolvent is queried by the caller between the calls
+    if r.random() < 0.08:
+        case["ev_probe"] = r.choice(("inverse", "both", "stored", "rebound", "walk", "peek"))    # the solver's evolvent is queried by the caller between the calls
     if r.random() < 0.04:
         case["np_params"] = r.choice(("int64", "int32"))    # the parameters are given as numpy scalars
     if case["lim"] <= 60 and r.random() < 0.05:
@@ -332,6 +332,7 @@ class Run:
         self.collapsed = None      # info on the float collapse that ended the run
         self.bad_marker = False    # 'Exception was thrown' printed for any other reason
         self.hang = False          # the watchdog fired during a solver call
+        self.peek_differs = None   # probe "peek": two consecutive GetImage(x) of the solver's evolvent returned different points
 
     # every call into the solver goes through one of these (stdout captured).
     #
@@ -364,6 +365,20 @@ class Run:
                 ev.GetInverseImage(np.array(mid, dtype=np.double))
                 if self.case["ev_probe"] == "both":
                     ev.GetImage(0.61)
+                if self.case["ev_probe"] == "peek":
+                    # "where will the search start / where on the curve was this trial made?": the caller asks for the image of the very
+                    # coordinates the solver uses itself - the centre 0.5 before the first trial, afterwards those of recorded trials
+                    # (asked twice in a row: a query is a function of its argument)
+                    sd = self.solver.searchData
+                    if sd.GetCount() <= 2:
+                        a_, b_ = ev.GetImage(0.5), ev.GetImage(0.5)
+                    else:
+                        its = [it for it in sd]
+                        t_ = its[len(its) // 2].GetX()
+                        a_, b_ = ev.GetImage(t_), ev.GetImage(t_)
+                        ev.GetImage(its[-2].GetX())
+                    if not np.array_equal(a_, b_):
+                        self.peek_differs = (a_.tolist(), b_.tolist())
                 if self.case["ev_probe"] == "walk":
                     # the caller LOOKS at the search data between the calls and leaves the loop early (any(...), a `for` with
                     # `break`, the read-only lookup by coordinate): a half-finished walk must not disturb the next iteration
@@ -441,6 +456,8 @@ class Run:
 
     def trouble(self, err=None):
         """None, or what went wrong inside the solver other than a legitimate float collapse"""
+        if self.peek_differs:
+            return {"evolvent_image_of_the_same_x_differs": self.peek_differs}
         if self.case["spec"].get("kind") == "band" and not (err or self.runaway or self.hang):
             # objectives with overflowing values: the new point of an interval with an infinite end value is NaN and the run ends by
             # "x is outside of interval" on a non-tiny interval (contained by Solve) - outside exact arithmetic, not an internal error
